@@ -3,7 +3,18 @@ from vlib.llvc import viewcheck
 
 
 def main(args):
-    r = viewcheck.run("C19", args, ["Enum"], ["read", "write"],
+    import os, shutil
+    from vlib import core
+    from vlib.llvc import corpus
+    inc = corpus.generate_headers(["enums.emb"], os.path.join(core.VERIF, "corpus"))
+    try:
+        return _main(args, corpus.enum_jobs("corpus.specs", inc))
+    finally:
+        shutil.rmtree(inc, ignore_errors=True)
+
+
+def _main(args, more):
+    r = viewcheck.run("C19", args, ["Enum"], ["read", "write"], more_jobs=more,
                       functions=["emboss::support::EnumView::{Ok,IsComplete,Read,UncheckedRead,CouldWriteValue,TryToWrite} for signed and unsigned underlying types of 8/16/32/64 bits"])
     if isinstance(r, int):
         return r
@@ -11,6 +22,7 @@ def main(args):
     pool.run_targets(r, "contracts.gate", ["_cpp_integer_type_for_enum"])
     r.function("compiler.back_end.cpp.header_generator._cpp_integer_type_for_enum", "pyvc: smallest fixed-width type of the declared signedness, total on 1..64")
     r.assume(*core.STANDING_ASSUMPTIONS["E1"])
-    r.extra["not_covered"] = ["generated enum helpers (TryToGetEnumFromName, TryToGetNameFromEnum, EnumIsKnown): corpus checks",
-                              "name_conversion: bounded check"]
+    r.function("generated TryToGetEnumFromName / TryToGetNameFromEnum / EnumIsKnown / enumerators / underlying type of the corpus enums (corpus/enums.emb)",
+               "llvc: header generated in this run vs the declared (name, value) list: all 2^64 candidate values, all NUL-terminated strings up to 48 bytes; libc strcmp/strncmp modelled byte-wise with bounds obligations")
+    r.extra["not_covered"] = ["enums outside the corpus", "name_conversion / enum_case spellings", "text-format enum I/O"]
     return r.finish()
